@@ -164,6 +164,10 @@ def work_dense(task, p):
             rho = tomo.rand_state(n, rng, kind)
             prep = None
             init = rho
+            if i % 4 == 3:
+                from ..workload import stabilizers as ws
+                prep = ws.qiskit_circuit([], n, ws.random_registers(n, rnd))      # the register made of several QuantumRegisters
+                p.counters["preparation circuits on several quantum registers"] += 1
         ok, circs = circuits_for(n, conn, prep, user_metadata=(i % 2 == 1))
         p.evals += 1
         if not ok:
